@@ -152,6 +152,21 @@ def observe(kind: str, e: dict, lo: int, hi: int) -> dict:
         except Exception as exc:  # noqa: BLE001
             ev["sqlflat"] = [ERR] * len(rows)
             ev["notes"].append(f"convert_flattened_predicate raised {type(exc).__name__}: {exc}")
+        # the declared column set is a VALUE: using the predicate (as a join predicate against a relation that
+        # provides column b, in a selection, in a negation) must not change what it declares
+        try:
+            from lsst.daf.relation import Join, LeafRelation
+            from lsst.daf.relation.iteration import RowSequence
+
+            fixed = _state.get("fixed_b") or _state.setdefault("fixed_b", LeafRelation(it_engine, frozenset({b}), RowSequence([]), name="F"))
+            pj = Join(real).partial(fixed)
+            _ = pj.columns_required
+            _ = real.logical_not().columns_required
+            after = sorted(c.qualified_name for c in real.columns_required)
+            if after != ev["req"]:
+                ev["req_mutated"] = after
+        except Exception as exc:  # noqa: BLE001
+            ev["notes"].append(f"PartialJoin.columns_required raised {type(exc).__name__}: {exc}")
     else:
         ev["triv"] = "N"
         ev["flat"] = {"ok": True, "ps": []}
@@ -225,6 +240,11 @@ def worker(lines: list[str], ctx: dict) -> dict:
             out["violations"].append(
                 {"property": "C13", "what": "columns_required is not exactly the set of columns the expression depends on syntactically",
                  "case": case, "declared": ev["req"], "expected": sorted(st["req"]), "family": "expr"})
+        if "req_mutated" in ev:
+            out["violations"].append(
+                {"property": "C13", "what": "columns_required of a predicate changed after the predicate was used as a join predicate "
+                                            "(the declared column set is no longer the set the predicate depends on)",
+                 "case": case, "declared_before": ev["req"], "declared_after": ev.pop("req_mutated"), "family": "expr"})
         # hand every recorded answer to TLC as well (binding B)
         ev.pop("notes", None)
         ev.pop("sqlflat", None)
